@@ -7,11 +7,12 @@ and the first half of `Stop` (`stream.go:260`).
 A transition system: one step = the code segment of one thread between two consecutive
 synchronisation points (the verif yield points `send.lock`, `send.send`, `expand.enter`,
 `expand.read`, `expand.wlock`, `expand.mig`, `expand.done`, `expand.retry`, `drop.retry`,
-`block.send`, `cons.recv`, `stop.flag`, `stop.done`, `stop.nil`).  A schedule is a list of
+`drop.get`, `block.get`, `block.send`, `cons.recv`, `stop.flag`, `stop.done`, `stop.nil`).  A schedule is a list of
 (thread, witness) pairs; the witness resolves what Go's `select` leaves open (which ready case
 fires, whether the 100µs/100ms timers win).  `dataChanMux` is not a state component: who is
 inside a read section / the write section is read off the program counters, so mutual
-exclusion is a guard on the steps that acquire the lock.
+exclusion is a guard on the steps that acquire the lock (the write side is the state component
+`mig`, which also names the old and the new channel of the migration in progress).
 
 `Cfg.consLock` selects the consumer: `true` = the consumer receives while holding the read
 lock (the repaired code), `false` = it reads the channel pointer under the lock, releases it
@@ -90,7 +91,7 @@ inductive PC where
   | expEnter                               -- `expand.enter`
   | expRead                                -- `expand.read` (CAS won)
   | expWLock (n : Nat)                     -- `expand.wlock`, new capacity decided
-  | expMig (old : Option Nat) (new : Nat)  -- `expand.mig` (inside the write section)
+  | expMig                                 -- `expand.mig` (inside the write section, see `State.mig`)
   | expDone                                -- `expand.done`
   | expRetry (i : Nat)                     -- `expand.retry`
   | dropGet                                -- `drop.get`: about to read the channel pointer
@@ -131,7 +132,9 @@ structure State where
   dropped   : List Row           -- rows counted in input_dropped_count
   exits     : List Row           -- rows whose Emit returned silently because the stream stopped
   input     : Nat                -- input_count
-  expanding : Bool               -- the CAS guard
+  expanding : Option Nat         -- the CAS guard `expanding` (with the producer that won it)
+  mig       : Option (Nat × Option Nat × Nat)
+                                 -- `dataChanMux` write-held by expander `i` migrating `old → new`
   stopped   : Bool
   done      : Bool
   deriving Repr
@@ -149,13 +152,9 @@ def init (c : Cfg) (n : Nat) : State :=
   { prods := (List.range n).map (fun i => { id := i, pc := .idle, next := 0, cur := none }),
     chans := [{ cap := c.cap0, buf := [] }], curCh := some 0, cons := .cRead, stopPc := .sIdle,
     processed := [], dropped := [], exits := [], input := 0,
-    expanding := false, stopped := false, done := false }
+    expanding := none, mig := none, stopped := false, done := false }
 
 /-! ### the lock, read off the program counters -/
-
-def isMigPc : PC → Bool
-  | .expMig _ _ => true
-  | _ => false
 
 def isRdPc : PC → Bool
   | .sendSend _ => true
@@ -166,7 +165,7 @@ def isHold : CPC → Bool
   | _ => false
 
 /-- some producer is inside the write section -/
-def wHeld (s : State) : Bool := s.prods.any (fun p => isMigPc p.pc)
+def wHeld (s : State) : Bool := s.mig.isSome
 /-- somebody is inside a read section -/
 def rdIn (c : Cfg) (s : State) : Bool :=
   s.prods.any (fun p => isRdPc p.pc) || (c.consLock && isHold s.cons)
@@ -261,22 +260,22 @@ def doSendSend (c : Cfg) (s : State) (i : Nat) (p : Prod) (att : Nat) : Option S
 
 /-- the CAS guard -/
 def doExpEnter (c : Cfg) (s : State) (i : Nat) (p : Prod) : Option State :=
-  if s.expanding then some ((trySend c s 1).apply s i p)
-  else some ((Next.goto .expRead).apply { s with expanding := true } i p)
+  if s.expanding.isSome then some ((trySend c s 1).apply s i p)
+  else some ((Next.goto .expRead).apply { s with expanding := some i } i p)
 
 /-- read `cap`/`len` under the read lock, decide -/
 def doExpRead (c : Cfg) (s : State) (i : Nat) (p : Prod) : Option State :=
   if rGuard s then
     match expandDecision c (curCap s) (curLen s) with
-    | none => some ((trySend c s 1).apply { s with expanding := false } i p)
+    | none => some ((trySend c s 1).apply { s with expanding := none } i p)
     | some n => some ((Next.goto (.expWLock n)).apply s i p)
   else none
 
 /-- `Lock`, `oldChan := s.dataChan` (the new channel is allocated here in the model) -/
 def doExpWLock (c : Cfg) (s : State) (i : Nat) (p : Prod) (n : Nat) : Option State :=
   if wGuard c s then
-    some ((Next.goto (.expMig s.curCh s.chans.length)).apply
-      { s with chans := s.chans ++ [{ cap := n, buf := [] }] } i p)
+    some ((Next.goto .expMig).apply
+      { s with chans := s.chans ++ [{ cap := n, buf := [] }], mig := some (i, s.curCh, s.chans.length) } i p)
   else none
 
 def oldEmpty (s : State) : Option Nat → Bool
@@ -285,8 +284,10 @@ def oldEmpty (s : State) : Option Nat → Bool
     | some co => co.buf.isEmpty
     | none => true
 
-/-- one migration iteration that moves a row -/
+/-- one migration iteration that moves a row (`newChan <- data` never blocks: the new channel
+is larger than the old one; a full new channel would be the 5 s migration timeout, not modelled) -/
 def migOne (s : State) (o n : Nat) : Option State :=
+  if o = n then none else
   match s.chans[o]?, s.chans[n]? with
   | some co, some cn =>
     match co.buf with
@@ -297,16 +298,21 @@ def migOne (s : State) (o n : Nat) : Option State :=
       else none
   | _, _ => none
 
-/-- `expand.mig`: move one row, or (old channel empty) swap the reference and `Unlock` -/
-def doExpMig (s : State) (i : Nat) (p : Prod) (o : Option Nat) (n : Nat) : Option State :=
-  if oldEmpty s o then some ((Next.goto .expDone).apply { s with curCh := some n } i p)
+def migStep (s : State) (i : Nat) (p : Prod) (o : Option Nat) (n : Nat) : Option State :=
+  if oldEmpty s o then some ((Next.goto .expDone).apply { s with curCh := some n, mig := none } i p)
   else match o with
     | some o' => migOne s o' n
     | none => none
 
+/-- `expand.mig`: move one row, or (old channel empty) swap the reference and `Unlock` -/
+def doExpMig (s : State) (i : Nat) (p : Prod) : Option State :=
+  match s.mig with
+  | some (j, o, n) => if j = i then migStep s i p o n else none
+  | none => none
+
 /-- deferred `expanding := 0`, then the retry send -/
 def doExpDone (c : Cfg) (s : State) (i : Nat) (p : Prod) : Option State :=
-  some ((trySend c s 1).apply { s with expanding := false } i p)
+  some ((trySend c s 1).apply { s with expanding := none } i p)
 
 /-- `select { timer 100µs | done }`, then `safeSendToDataChan` -/
 def doExpRetry (c : Cfg) (s : State) (i : Nat) (p : Prod) (k : Nat) : Wit → Option State
@@ -351,7 +357,7 @@ def stepPc (c : Cfg) (s : State) (i : Nat) (p : Prod) (w : Wit) : PC → Option 
   | .expEnter => doExpEnter c s i p
   | .expRead => doExpRead c s i p
   | .expWLock n => doExpWLock c s i p n
-  | .expMig o n => doExpMig s i p o n
+  | .expMig => doExpMig s i p
   | .expDone => doExpDone c s i p
   | .expRetry k => doExpRetry c s i p k w
   | .dropGet => doDropGet s i p
@@ -424,7 +430,8 @@ def run (c : Cfg) : State → List (Tid × Wit) → State
 
 /-! ### what is visible from outside -/
 
-def allIdle (s : State) : Bool := s.prods.all (fun p => p.cur.isNone)
+/-- every Emit call has returned -/
+def allIdle (s : State) : Bool := s.prods.all (fun p => p.pc == .idle)
 def droppedCount (s : State) : Nat := s.dropped.length
 
 end Ingest
